@@ -27,26 +27,26 @@ func (r Result) String() string { return [...]string{"unknown", "sat", "unsat"}[
 
 // Stats are global counters (atomic) for evidence.
 var (
-	QueriesIncr   int64
-	QueriesFresh  int64
-	NanosIncr     int64
-	NanosFresh    int64
+	QueriesIncr    int64
+	QueriesFresh   int64
+	NanosIncr      int64
+	NanosFresh     int64
 	NanosByBackend [4]int64 // z3, z3-new, cvc5, cvc5-int
-	Errors        int64
-	NanosGetValue int64
+	Errors         int64
+	NanosGetValue  int64
 )
 
 var BackendNames = []string{"z3", "z3-new", "cvc5", "cvc5-bvint"}
 
 // Proc is a persistent incremental solver process.
 type Proc struct {
-	Kind  string
-	cmd   *exec.Cmd
-	in    io.WriteCloser
-	out   *bufio.Reader
-	dead  bool
-	Log   io.Writer
-	nmark int
+	Kind        string
+	cmd         *exec.Cmd
+	in          io.WriteCloser
+	out         *bufio.Reader
+	dead        bool
+	Log         io.Writer
+	nmark       int
 	lastTimeout int
 }
 
